@@ -312,6 +312,53 @@ def eval_coal(ctx, pg, sc):
             return
 
 
+# ----------------------------------------------------------------------------------------------- Coalescent, across processes
+def eval_xproc(ctx, pg, sc):
+    """the file is written by THIS interpreter process and read back by ANOTHER one (own hash salt, nothing in memory): the usual
+    way a saved object is used.  The child (props/c18_reader.py) loads the file and answers every query; compared with the
+    original object here."""
+    import subprocess, sys, json
+    cfg, stats = sc['cfg'], [list(s) for s in sc['stats']]
+    pre = set(sc['pre'])
+    c = make(pg, cfg, sc['style'])
+    for i in sorted(pre):
+        Q.run_query(pg, c, stats[i])
+    path, qpath = tmp_path(f'{os.getpid()}-x'), tmp_path(f'{os.getpid()}-q')
+    try:
+        c.to_file(path)
+        with open(qpath, 'w') as fh:
+            json.dump(C.jsonable(stats), fh)
+        env = dict(os.environ, PYTHONHASHSEED=str(sc['hashseed']))
+        reader = os.path.join(os.path.dirname(os.path.abspath(__file__)), 'c18_reader.py')
+        proc = subprocess.run([sys.executable, reader, path, qpath], env=env, capture_output=True, text=True, timeout=200)
+    finally:
+        for f in (path, qpath):
+            try:
+                os.unlink(f)
+            except OSError:
+                pass
+    line = next((l for l in proc.stdout.splitlines() if l.startswith('RESULT ')), None)
+    ctx.count('xproc:scenarios'); ctx.count(f'xproc:{cfg["model"][0]}:loci{cfg.get("loci", 1)}:epochs{len(cfg["epochs"])}')
+    if line is None:
+        ctx.corr_break('xproc-reader', scenario=sc, returncode=proc.returncode, stderr=proc.stderr[-600:])
+        return
+    res = json.loads(line[7:])
+    if 'load_error' in res:
+        ctx.violation('xproc:load-raises', expected='an equal object', observed=res['load_error'], scenario=sc)
+        return
+    nt = len(cfg['epochs']) >= 2 or cfg.get('loci', 1) == 2
+    for i, (q, r) in enumerate(zip(stats, res['results'])):
+        ref = Q.run_query(pg, c, q)
+        got = ('exc', r[1]) if r[0] == 'exc' else ('ok', np.array([float.fromhex(x) for x in r[2]], dtype=float).reshape(r[1]))
+        ctx.case(dict(scenario=sc, query=q, original=Q.show(ref), loaded_in_other_process=Q.show(got)),
+                 (gen.cfg_key(cfg), 'xproc', i) if (i not in pre or nt) else None)
+        ctx.count('xproc:stat-not-cached-before-saving' if i not in pre else 'xproc:stat-cached-before-saving')
+        if not same(ref, got):
+            ctx.violation(f'xproc:stat:{q[0]}', query=q, cached_before_saving=i in pre, expected=Q.show(ref), observed=Q.show(got),
+                          note='saved by one interpreter process, loaded by another (different PYTHONHASHSEED)', scenario=sc)
+            return
+
+
 # ----------------------------------------------------------------------------------------------- SFS2
 def rand_sfs2_scenario(rng, quick):
     kind = rng.choice(['sym-float', 'asym-float', 'asym-float', 'asym-int', 'cov', 'special'])
@@ -549,6 +596,11 @@ def scenario_for(ctx, item):
         return rand_coal_scenario(rng, ctx.quick)
     if kind == 'sfs2':
         return rand_sfs2_scenario(rng, ctx.quick)
+    if kind == 'xproc':
+        sc = rand_coal_scenario(rng, ctx.quick)
+        if not sc['pre']:
+            sc['pre'] = [0]                      # something is computed before saving: the state space is part of the file
+        return dict(sc, kind='xproc', route='file', hashseed=rng.randint(1, 2 ** 31 - 1))
     return rand_inference_scenario(rng, ctx.quick)
 
 
@@ -557,6 +609,8 @@ def evaluate(ctx, pg, sc):
         eval_coal(ctx, pg, sc)
     elif sc['kind'] == 'sfs2':
         eval_sfs2(ctx, pg, sc)
+    elif sc['kind'] == 'xproc':
+        eval_xproc(ctx, pg, sc)
     else:
         eval_inference(ctx, pg, sc)
 
@@ -570,7 +624,7 @@ def run(ctx):
     import check
     q = ctx.quick
     items = [('coal', i) for i in range(300 if q else 3000)] + [('sfs2', i) for i in range(80 if q else 600)] + \
-            [('inf', i) for i in range(40 if q else 300)]
+            [('inf', i) for i in range(40 if q else 300)] + [('xproc', i) for i in range(24 if q else 120)]
     ctx.rng.shuffle(items)
     check.pmap(ctx, 'props.c18', 'one', items, case_timeout=240 if q else 900)
     # field-level correspondence with the Lean model of __getstate__/__setstate__ (PGModel/Serialize.lean, driver command `serial`)
